@@ -302,20 +302,31 @@ func (ll *levelLoop) walkerStep() (string, bool) {
 		return "the running hash is not updated from a two-way merge", false
 	}
 	var setV, clrV []string
-	for k, e := range phi.Edges {
-		p := phi.Block().Preds[k]
-		s := ll.sx.Of(e).String()
-		switch {
-		case inSide(p, ll.setBlk):
-			setV = append(setV, s)
-		case inSide(p, ll.clrBlk):
-			clrV = append(clrV, s)
-		default:
-			// other paths into the merge (e.g. the not-found `continue` of getSiblings) keep CUR
-			if s != "CUR" {
-				return "unexpected update of the running hash: " + s, false
+	problem := ""
+	var collect func(phi *ssa.Phi, d int)
+	collect = func(phi *ssa.Phi, d int) {
+		for k, e := range phi.Edges {
+			p := phi.Block().Preds[k]
+			s := ll.sx.Of(e).String()
+			switch {
+			case inSide(p, ll.setBlk) && len(ll.setBlk.Preds) == 1:
+				setV = append(setV, s)
+			case inSide(p, ll.clrBlk) && len(ll.clrBlk.Preds) == 1:
+				clrV = append(clrV, s)
+			default:
+				// other paths into the merge (e.g. the not-found `continue` of getSiblings) keep CUR; a value merged
+				// earlier (helper expanded in place) is looked into
+				if inner, isPhi := e.(*ssa.Phi); isPhi && inner != ll.cur && d < 3 {
+					collect(inner, d+1)
+				} else if s != "CUR" {
+					problem = "unexpected update of the running hash: " + s
+				}
 			}
 		}
+	}
+	collect(phi, 0)
+	if problem != "" {
+		return problem, false
 	}
 	desc := fmt.Sprintf("bit set → %v; bit clear → %v", setV, clrV)
 	isNode := func(s, f string) bool {
@@ -325,11 +336,51 @@ func (ll *levelLoop) walkerStep() (string, bool) {
 	return desc, ok
 }
 
+// resolveSide: the value a Phi takes when the level loop body was entered through `side` (the other operands belong
+// to the other edge of the bit test).
+func (ll *levelLoop) resolveSide(v ssa.Value, side *ssa.BasicBlock, d int) ssa.Value {
+	phi, ok := v.(*ssa.Phi)
+	if !ok || d > 4 || phi == ll.cur || phi == ll.hPhi {
+		return v
+	}
+	ifBlk := ll.iff.Block()
+	exclusive := len(side.Preds) == 1
+	var pick ssa.Value
+	n := 0
+	for k, e := range phi.Edges {
+		pb := phi.Block().Preds[k]
+		via := false
+		switch {
+		case pb == ifBlk:
+			via = phi.Block() == side
+		case exclusive && inSide(pb, side):
+			via = true
+		}
+		if via {
+			if pick != e {
+				n++
+			}
+			pick = e
+		}
+	}
+	if n != 1 {
+		return v
+	}
+	return ll.resolveSide(pick, side, d+1)
+}
+
 // storesInto lists `arr[H] <- v` stores on a side (or anywhere when side is nil) as "arr <- v".
 func (ll *levelLoop) storesInto(side *ssa.BasicBlock) []string {
 	var out []string
+	other := ll.clrBlk
+	if side == ll.clrBlk {
+		other = ll.setBlk
+	}
 	for _, b := range ll.fn.Blocks {
-		if side != nil && !inSide(b, side) {
+		onSide := side == nil || inSide(b, side) && len(side.Preds) == 1
+		// a store after the two edges merged again carries a Phi: it counts for a side with the operand of that side
+		merged := side != nil && !onSide && ll.iff.Block().Dominates(b) && !(len(other.Preds) == 1 && inSide(b, other)) && b != ll.iff.Block()
+		if !onSide && !merged {
 			continue
 		}
 		for _, ins := range b.Instrs {
@@ -344,7 +395,15 @@ func (ll *levelLoop) storesInto(side *ssa.BasicBlock) []string {
 			if at, ok := st.Val.Type().Underlying().(*types.Array); !ok || at.Len() != 32 {
 				continue
 			}
-			out = append(out, ll.sx.Of(ia).String()+" <- "+ll.sx.Of(st.Val).String())
+			val := st.Val
+			if merged {
+				r := ll.resolveSide(val, side, 0)
+				if r == val {
+					continue // not decided by the bit test
+				}
+				val = r
+			}
+			out = append(out, ll.sx.Of(ia).String()+" <- "+ll.sx.Of(val).String())
 		}
 	}
 	return out
